@@ -358,7 +358,11 @@ def _record_rules_pass(rec, opts):
 
 def argv_for(opts, starts, dbpath, extra=()):
     argv = [s for s in starts]
-    argv += ['--database', dbpath, '--delete-after', '--no-check-certificate', '--waitretry', '0', '-q']
+    if opts.get('database_uri'):
+        argv += ['--database-uri', 'sqlite:///' + dbpath]      # same file through GenericSQLURLTable
+    else:
+        argv += ['--database', dbpath]
+    argv += ['--delete-after', '--no-check-certificate', '--waitretry', '0', '-q']
     if opts.get('recursive'):
         argv.append('-r')
     if opts.get('level') not in (None, 5):
@@ -403,6 +407,8 @@ def argv_for(opts, starts, dbpath, extra=()):
         argv += ['--user-agent', opts['user_agent']]
     if opts.get('max_redirect') is not None:
         argv += ['--max-redirect', str(opts['max_redirect'])]
+    if opts.get('sitemaps'):
+        argv.append('--sitemaps')
     argv += list(extra)
     return argv
 
